@@ -383,6 +383,11 @@ fn plan_base(prop: &str) -> Vec<Item> {
                 v.push(it("fs_cancel", &format!("pool=1,mode={}", mode), Some(2), 3));
             }
             v.push(it("excl_drop", "pool=0,k=1,other=0", Some(2), 3));
+            // a future that once ran the queue itself is polled again after the queue changed hands twice (seed C01-j)
+            for who in [0, 1, 2] {
+                v.push(it("repoll", &format!("pool=1,who={}", who), Some(2), 3));
+            }
+            v.push(it("repoll", "pool=2,who=0", Some(1), 2));
             v.push(it("pipe_in_items", "pool=1,n=2,pat=1,conc=1", Some(1), 2));
             v.push(it("drop_obj", "pool=1,state=3,dropper=2", Some(1), 2));
             v.extend(prog_sweep(&[], &[1], Some(1), 2, Some(1), 1));
@@ -596,6 +601,9 @@ fn plan_base(prop: &str) -> Vec<Item> {
             v.extend(prog_pairs(&["FDd", "AF", "FDx"], "pool=1,busy=1,stale=1", false, None, 1, 1));
         }
         "C07" => {
+            for who in [0, 1, 2] {
+                v.push(it("repoll", &format!("pool=1,who={}", who), Some(2), 3));
+            }
             for mode in 0..5 {
                 for pool in [0, 1, 2] {
                     v.push(it("fd_result", &format!("pool={},mode={}", pool, mode), Some(if pool == 2 { 1 } else { 2 }), if pool == 2 { 2 } else { 3 }));
@@ -962,6 +970,7 @@ pub fn owners(scenario: &str, part: &str) -> Vec<&'static str> {
         "pool_census" => vec!["C17", "C03"],
         "excl_susp" => vec!["C06", "C01", "C09", "C08"],
         "excl_drop" => vec!["C07", "C01", "C04"],
+        "repoll" => vec!["C07", "C01", "C04"],
         "order_ctx" => vec!["C02", "C03"],
         "pipe_in_items" => vec!["C11", "C03"],
         "pipe_out" | "pipe_steal" | "pipe_rewake" | "pipe_partial" | "pipe_fs" => vec!["C12", "C03"],
